@@ -902,7 +902,6 @@ class TermCanvas(Canvas):
         x, y = self.term_cursor
 
         while x < self.width - 1:
-            self.set_char(b" ")
             x += 1
 
             if self.is_tabstop(x):
